@@ -166,3 +166,31 @@ Definition run_first_entry (ret : Z) (rl : list Z) (ml : list (Z * Z)) (stack si
   | Jump t s => Some (t, map (regs s) all_regs)
   | _ => None
   end.
+
+(* A switches to a prepared frame (context B's entry), B switches back to A: both runs of the
+   routine on the memory left by the first; B's rsi is read from A's cell as the C++ code does *)
+Definition run_two (retA : Z) (rlA : list Z) (ml : list (Z * Z)) (mxA cwA : Z)
+                   (retB : Z) (rlB : list Z) (mxB cwB : Z) (cellA : Z) (probe : list Z)
+  : option ((Z * list Z) * (Z * list Z) * (list Z * (Z * Z))) :=
+  match switch retA (mkState (regs_of_list rlA) (mem_of_list ml) mxA cwA) with
+  | Jump t1 s1 =>
+      let r2 := fun q => if reg_eqb q RSI then mem s1 cellA else regs_of_list rlB q in
+      match switch retB (mkState r2 (mem s1) mxB cwB) with
+      | Jump t2 s3 =>
+          Some ((t1, map (regs s1) all_regs), (t2, map (regs s3) all_regs),
+                (map (mem s3) probe, (mxcsr s3, fpcw s3)))
+      | _ => None
+      end
+  | _ => None
+  end.
+
+(* first entry: the frame as init()/rebind_stack() builds it; reports the frame pointer, the
+   two slot indices, the jump target, rdi and rsp at the trampoline's entry *)
+Definition run_fe (ret : Z) (rl : list Z) (stack size this funp : Z)
+  : option (Z * (Z * Z) * (Z * Z * Z)) :=
+  let m := init_frame stack size this funp (fun _ => 0) in
+  let r := fun q => if reg_eqb q RSI then frame_sp stack size else regs_of_list rl q in
+  match switch ret (mkState r m 0 0) with
+  | Jump t s => Some (frame_sp stack size, (cb_idx, funp_idx), (t, regs s RDI, regs s RSP))
+  | _ => None
+  end.
